@@ -30,9 +30,12 @@ def _setup(mode):
 
 
 # template = (side, kind, split, status) ; kinds: LC (limit classic), LF (limit finest), LL (limit line), LOC, MOC
-LIMIT_KINDS = {"LC": (2.5, 2.7, "CLASSIC"), "LF": (2.51, 2.63, "FINEST"), "LL": (3.5, 3.5, "LINE_RANGE")}
+# (limit price, matched price, ladder); LX: a large order matched at an average price with many decimals (live: the
+# exchange reports the exact average; several fills at different prices)
+LIMIT_KINDS = {"LC": (2.5, 2.7, "CLASSIC"), "LF": (2.51, 2.63, "FINEST"), "LL": (3.5, 3.5, "LINE_RANGE"), "LX": (3.4, 3.456789, "CLASSIC")}
 SPLIT_STATUS = {
-    "none": ("PENDING", "EXECUTABLE", "CANCELLING", "EXECUTION_COMPLETE", "VIOLATION"),
+    # RESUBMITTED: refused by a control first, then offered again and acknowledged (refused -> pending -> executable)
+    "none": ("PENDING", "EXECUTABLE", "CANCELLING", "EXECUTION_COMPLETE", "VIOLATION", "RESUBMITTED"),
     "half": ("EXECUTABLE", "UPDATING", "REPLACING", "EXECUTION_COMPLETE", "VIOLATION"),
     "all": ("EXECUTABLE", "EXECUTION_COMPLETE"),
 }
@@ -45,6 +48,8 @@ def templates():
         for kind in LIMIT_KINDS:
             for split, sts in SPLIT_STATUS.items():
                 for s in sts:
+                    if kind == "LX" and (split != "all" or s != "EXECUTION_COMPLETE"):
+                        continue
                     t.append((side, kind, split, s))
         for kind in ("LOC", "MOC"):
             for s in SP_STATUS:
@@ -69,6 +74,11 @@ def new_order_templates():
 def _drive(o, status):
     if status is None:
         return
+    if status == "RESUBMITTED":
+        o.violation("refused")
+        o.placing()
+        o.executable()
+        return
     if status == "VIOLATION":
         o.violation("refused")
         return
@@ -82,6 +92,8 @@ def _drive(o, status):
 
 
 def make(mode, tmpl, sel, size=4.0):
+    if tmpl[1] == "LX":
+        size = 40.0
     """Build one real order in the given representation + its plain reference record."""
     from flumine.order.trade import Trade
     from flumine.order.ordertype import LimitOrder, LimitOnCloseOrder, MarketOnCloseOrder
@@ -92,7 +104,7 @@ def make(mode, tmpl, sel, size=4.0):
     tr = Trade(MID, sel, 0, st)
     if kind in LIMIT_KINDS:
         limit, mprice, ladder = LIMIT_KINDS[kind]
-        if side == "LAY":
+        if side == "LAY" and kind != "LX":
             mprice = round(limit - (mprice - limit), 2) if kind != "LL" else mprice
         kw = {}
         if ladder == "LINE_RANGE":
@@ -140,7 +152,7 @@ def make(mode, tmpl, sel, size=4.0):
             if status == "EXECUTION_COMPLETE":
                 sim.size_cancelled = round(size - matched, 2)
         _drive(o, status)
-        ref = refs.RefOrder(side, "LIMIT", kind == "LL", status, o.complete, frags, remaining, limit, None, (MID, sel, 0))
+        ref = refs.RefOrder(side, "LIMIT", kind == "LL", "EXECUTABLE" if status == "RESUBMITTED" else status, status in ("EXECUTION_COMPLETE", "VIOLATION"), frags, remaining, limit, None, (MID, sel, 0))
         return o, ref
     liab = 6.0 if kind == "LOC" else 5.0
     ot = LimitOnCloseOrder(liab, 3.0) if kind == "LOC" else MarketOnCloseOrder(liab)
@@ -150,8 +162,11 @@ def make(mode, tmpl, sel, size=4.0):
     return o, ref
 
 
-def _tol(ref_orders):
+def _tol(ref_orders, mode="sim"):
     sm = sum((s for r in ref_orders for _, s in r.frags), F(0))
+    if mode == "live":
+        # the exchange's exact average price is used: only the final 2dp roundings remain
+        return F(3, 100)
     return F(5, 1000) * sm + F(2, 100)
 
 
@@ -202,7 +217,7 @@ def _sel_chunk(args):
 
             def chk(clause, what, got_w, got_l, rfs, role):
                 ew, el = refs.ref_selection(rfs)
-                tol = _tol(rfs)
+                tol = _tol(rfs, mode)
                 for nm, g, e in (("win", got_w, ew), ("lose", got_l, el)):
                     if not _close(g, e, tol):
                         out.append(
@@ -223,7 +238,7 @@ def _sel_chunk(args):
             if any(r.status in ("PENDING", "VIOLATION") for r in rf) or any(r.complete and r.frags for r in rf):
                 counts["clause:C16.c"] += 1
             se = b.selection_exposure(st, lookup)
-            if not _close(se, refs.ref_selection_exposure(rf), _tol(rf)):
+            if not _close(se, refs.ref_selection_exposure(rf), _tol(rf, mode)):
                 out.append(core.v("C16.a", ("selection_exposure", "-", "-"), "selection_exposure %s expected %s for %s" % (se, float(refs.ref_selection_exposure(rf)), desc), dict(mode=mode, templates=desc), size=len(desc) * 100))
             outcomes.add((round(ge["worst_possible_profit_on_win"], 2), round(ge["worst_possible_profit_on_lose"], 2)))
             if len({r.side for r in rf if r.status not in ("PENDING", "VIOLATION")}) > 1 or len(rf) > 1:
@@ -315,7 +330,7 @@ def _market_chunk(args):
                 ss = sorted({r.lookup[1] for r in rfs})
                 for s in ss:
                     per.append(refs.ref_selection([r for r in rfs if r.lookup[1] == s]))
-                return refs.ref_market(per, active - len(ss), nw), sum((_tol([r for r in rfs if r.lookup[1] == s]) for s in ss), F(0)) + F(1, 100)
+                return refs.ref_market(per, active - len(ss), nw), sum((_tol([r for r in rfs if r.lookup[1] == s], mode) for s in ss), F(0)) + F(1, 100)
 
             for nw in (1, 2, 3):
                 for extra in (0, 1, 3):
